@@ -95,6 +95,9 @@ def _gen_from(rnd):
         if rnd.chance(35):
             case["t"] = {}
         case["pipeline_safe"] = rnd.chance(35)   # with ACLs and --acl-safe: the safe pair of trees is built as well
+        # ... by two generators: one whose lines are all safe, one that declares none of its lines safe (its blocks are in the complete
+        # output only, although the combined safe ACL would cover them)
+        case["pipeline_split"] = case["pipeline_safe"] and rnd.chance(50)
     return case
 
 
@@ -260,12 +263,23 @@ def _pipeline(case, dev0, rules, labels):
     everything = "~ %global\n" if safe else ""
     gen = type("VGen", (PartialGenerator,), {"run": run, "acl": lambda self, device: everything,
                                              "acl_safe": lambda self, device: everything})(_t.SimpleNamespace(flush_perf=lambda: {}))
+    split = safe and bool(case.get("pipeline_split"))
+    gens = [gen]
+    u_safe = u
+    if split:
+        rows = list(u.items())
+        u1, u_safe = odict(rows[1::2]), odict(rows[0::2])
+        g_unsafe = type("VGenUnsafe", (PartialGenerator,), {"run": lambda self, device: emit(self, u1), "acl": lambda self, device: everything,
+                                                            "acl_safe": lambda self, device: ""})(_t.SimpleNamespace(flush_perf=lambda: {}))
+        g_safe = type("VGenSafe", (PartialGenerator,), {"run": lambda self, device: emit(self, u_safe), "acl": lambda self, device: everything,
+                                                        "acl_safe": lambda self, device: everything})(_t.SimpleNamespace(flush_perf=lambda: {}))
+        gens = [g_unsafe, g_safe]
 
     class Args:
-        no_acl = not safe; no_acl_exclusive = False; acl_safe = safe; profile = False; fail_on_empty_config = False
+        no_acl = not safe; no_acl_exclusive = split; acl_safe = safe; profile = False; fail_on_empty_config = False
         generators_context = None; filter_acl = None; filter_ifaces = None; filter_peers = None; filter_policies = None
         required_packages_check = False
-    dg = G.DeviceGenerators(partial={dev: [gen]}, ref={dev: []}, entire={dev: []}, json_fragment={dev: []})
+    dg = G.DeviceGenerators(partial={dev: gens}, ref={dev: []}, entire={dev: []}, json_fragment={dev: []})
     ctx = G.OldNewDeviceContext(config="running", args=Args(), downloaded_files={}, failed_files={}, running={dev: text}, failed_running={},
                                 no_new=False, stdin={"filter_acl": None, "config": None}, add_annotations=False, add_implicit=True,
                                 do_files_download=False, gens=dg, fetched_packages={}, failed_packages={}, device_count=1,
@@ -277,8 +291,10 @@ def _pipeline(case, dev0, rules, labels):
         raise Violation("pipeline-error", f"{model}: _old_new_per_device failed: {res.err!r}", {"model": model, "t": case["t"], "u": case["u"]})
     pairs = [("old", res.old, t), ("new", res.new, u)]
     if safe:
-        pairs += [("safe old", res.safe_old, t), ("safe new", res.safe_new, u)]
+        pairs += [("safe old", res.safe_old, t), ("safe new", res.safe_new, u_safe)]
         labels.append("pipeline-acl-safe")
+        if split and len(u) >= 2:
+            labels.append("pipeline-safe-output-smaller")
     for name, got, src in pairs:
         exp = ref_complete(src, rules, [], [])
         if _unordered(got) != _unordered(exp):
